@@ -14,6 +14,7 @@ from __future__ import annotations
 import re
 
 from flowmark.linewrapping.atomic_patterns import (
+    INLINE_CODE_SPAN,
     PAIRED_HTML_COMMENT,
     PAIRED_JINJA_COMMENT,
     PAIRED_JINJA_TAG,
@@ -539,6 +540,14 @@ _CLOSING_GROUP_DELIMS: dict[str, tuple[str, str]] = {
 }
 
 
+_code_span_re: re.Pattern[str] = re.compile(INLINE_CODE_SPAN.pattern)
+
+
+def _inside_code_span(line: str, pos: int) -> bool:
+    """Whether position `pos` of `line` lies inside a code span (which never spans lines here)."""
+    return any(m.start() < pos < m.end() for m in _code_span_re.finditer(line))
+
+
 def _opening_tag_starts_on_line(line: str, match: re.Match[str]) -> bool:
     """
     Check whether the opening tag that ends at `match` was also opened on this line,
@@ -598,7 +607,15 @@ def _fix_multiline_opening_tag_with_closing(text: str) -> str:
         )
 
         if not is_tag_start:
-            match = _multiline_closing_pattern.search(line)
+            # Tag delimiters inside a code span are code, not tags: `` `a%}{% /x %}` ``.
+            match = next(
+                (
+                    m
+                    for m in _multiline_closing_pattern.finditer(line)
+                    if "`" not in line or not _inside_code_span(line, m.start())
+                ),
+                None,
+            )
             if match and not _opening_tag_starts_on_line(line, match):
                 # Find which named group matched and split at the closing tag
                 for group_name in ["closing_tag", "closing_comment", "closing_var", "closing_html"]:
